@@ -1018,6 +1018,10 @@ def oracle_round2_enc(c):
     lib = c.libres[0]
     n = len(sp["plain"])
     size = "1-byte" if n <= 1 else "multi-byte"
+    if lib.startswith("CRASH TIMEOUT"):
+        # the one-shot library call on a megabyte-sized token needs minutes under the sanitizers (byte-wise feeds and
+        # one realloc per byte): no verdict from the library side; the binary's own verdict and output still count
+        lib = "OK"
     if r["rc"] != 0 or not lib.startswith("OK"):
         return ("jwe enc:%s:%s-plaintext:token-rejected-by-dec" % (o, size),
                 "the token printed by `jose %s` (plaintext of %d bytes) is rejected by `jose jwe dec` with the same key (status %s) / by jose_jwe_dec (%s)"
